@@ -8,12 +8,16 @@ func execExtraOp(ts []string) (string, bool) {
 		return execSplit(ts), true
 	case "extract":
 		return execExtract(ts), true
+	case "dor":
+		return execDor(ts), true
 	case "do":
 		return execDo(ts), true
 	case "asm":
 		return execAsm(ts), true
 	case "srv":
 		return execSrv(ts), true
+	case "connrace":
+		return execConnRace(ts), true
 	case "conc":
 		return execConc(ts), true
 	case "lockfacts":
